@@ -221,7 +221,7 @@ def run_case(run, tap, stream, index, rng):
         w = LATTICE[index] + shift
         if w > 360:
             return
-        lons = np.array([v + s for v in LATTICE for s in ((0.0,) if stream == "lattice" else (0.0, 2.5)) if v + s <= 360], dtype="float64")
+        lons = np.array([v + s for v in LATTICE for s in ((0.0,) if stream == "lattice" else (0.0, 2.5)) if v + s <= 360] + [-0.0], dtype="float64")  # negative zero too (negated degrees West)
         lats = np.linspace(-90, 90, lons.size)
         done = 0
         for e0 in LATTICE:
@@ -399,7 +399,7 @@ def run_case(run, tap, stream, index, rng):
             c32, r32 = vd.longitude_continuity([lon2d.astype("float32"), frac_lat * (1 + 1e-9)], region)
             run.count("class:mixed_dtype_coordinates", 2)
             # one point in every spelling: Python floats, numpy scalars, 0-d arrays, 1-element arrays and lists
-            for lon_value in (350.0, -65.0, 185.0, 0.0, 360.0, -180.0, 180.0, 10.0):
+            for lon_value in (350.0, -65.0, 185.0, 0.0, 360.0, -180.0, 180.0, 10.0, -0.0):
                 lat_value = 5.0
                 for spell, pt in (("python", (lon_value, lat_value)), ("numpy_scalar", (np.float64(lon_value), np.float64(lat_value))),
                                   ("zero_d", (np.array(lon_value), np.array(lat_value))), ("one_element", (np.array([lon_value]), np.array([lat_value]))),
